@@ -408,7 +408,12 @@ impl Visitor<Diagnostic> for RuleGraphReferenceableElements {
             Some(from) => {
                 match node {
                     InitialValueAssignmentKind::None(_) => {}
-                    InitialValueAssignmentKind::Simple(_) => {}
+                    InitialValueAssignmentKind::Simple(si) => {
+                        // `name : TYPE := CONSTANT` is a reference to TYPE whatever TYPE turns out to be
+                        let from = self.declarations.add_node(from);
+                        let to = self.declarations.add_node(&si.type_name.name);
+                        self.declarations.graph.add_edge(to, from, ());
+                    }
                     InitialValueAssignmentKind::String(_) => {}
                     InitialValueAssignmentKind::EnumeratedValues(_) => {}
                     InitialValueAssignmentKind::EnumeratedType(et) => {
@@ -425,7 +430,14 @@ impl Visitor<Diagnostic> for RuleGraphReferenceableElements {
                         // reference (the same direction as for type declarations)
                         self.declarations.graph.add_edge(to, from, ());
                     }
-                    InitialValueAssignmentKind::Subrange(_) => {}
+                    InitialValueAssignmentKind::Subrange(spec) => {
+                        // A subrange of a named type refers to that type
+                        if let SubrangeSpecificationKind::Type(parent) = spec {
+                            let from = self.declarations.add_node(from);
+                            let to = self.declarations.add_node(&parent.name);
+                            self.declarations.graph.add_edge(to, from, ());
+                        }
+                    }
                     InitialValueAssignmentKind::Structure(si) => {
                         // A variable or element with a structure initializer refers to its type
                         // (a structure or a function block) just like one without an initializer
